@@ -67,6 +67,34 @@ fn apply_and_check(opi: usize, form: u8, qa: crate::dynq::Q, qb: crate::dynq::Q)
     if r.1 >= rt.n_units {
         return Err(Verdict::Fail(format!("{}: result unit is not a unit of the result quantity", note)));
     }
+    // a square of one object: `&x * &x` against `x * x'` of two equal values
+    if o.is_mul && o.a == o.b {
+        for q in [qa, qb] {
+            let two = catch(|| (o.run)(0, q, q));
+            let one = catch(|| (o.run)(4, q, q));
+            match (two, one) {
+                (Ok(t2), Ok(t1)) => {
+                    if t2.1 != t1.1 || !amt::same(t2.0, t1.0) {
+                        return Err(Verdict::Fail(format!(
+                            "{}: {} multiplied with itself as one object (&x * &x) gives {} but two equal values give {}",
+                            note, c.describe_q(o.a, q), c.describe_q(o.r, t1), c.describe_q(o.r, t2)
+                        )));
+                    }
+                }
+                (Err(_), Err(_)) => {}
+                (t2, t1) => {
+                    return Err(Verdict::Fail(format!("{}: squaring {}: one object {:?}, two values {:?}", note, c.describe_q(o.a, q), t1.map(|r| r.1), t2.map(|r| r.1))));
+                }
+            }
+        }
+    }
+    // the result (unit and amount) depends on the operands only
+    let h = crate::hist::mix(&[crate::hist::mix_str(&amt::key(qa.0)), crate::hist::mix_str(&amt::key(qb.0)), opi as u64, qa.1 as u64, qb.1 as u64, form as u64]);
+    if h % 4 == 0 {
+        if let Some(m) = crate::hist::independent(h, &|| crate::hist::show_q((o.run)(form, qa, qb))) {
+            return Err(Verdict::Fail(format!("{}: {}", note, m)));
+        }
+    }
     // all four owned / borrowed forms agree
     for f in 0..4u8 {
         if f == form {
